@@ -96,9 +96,49 @@ def check(run, model, tier):
         raise AnalysisError('trace writer: expected one strftime call, found %d' % len(st_calls))
     # ---- reader regex: every regular expression applied by stripped() (in its body or in a helper nested in it)
     uses = []          # (function that contains the use, how, pattern, call, subject args)
-    for fn_ in [stripped] + list(stripped.nested.values()):
+    # ... or in a module-level function it calls (followed transitively; a decorator on such a function does not hide its body)
+    helpers, todo_ = [], [stripped] + list(stripped.nested.values())
+    seen_ = set()
+    while todo_:
+        fn_ = todo_.pop()
+        if fn_.qualname in seen_:
+            continue
+        seen_.add(fn_.qualname)
+        helpers.append(fn_)
+        for c_ in [x for x in ast.walk(fn_.node) if isinstance(x, ast.Call) and isinstance(x.func, ast.Name)]:
+            tgt = next((f2 for f2 in model.all_funcs() if f2.owner_class is None and f2.parent is None and f2.module is stripped.module and f2.name == c_.func.id), None)
+            if tgt is not None:
+                todo_.append(tgt)
+    for fn_ in helpers:
         for how_, pat_, c_, rest_ in regex_uses(model, fn_):
             uses.append((fn_, how_, pat_, c_, rest_))
+    # what stripped() hands out is the caller's own: a memoised helper that returns a container hands the *same* object to every caller with an equal log
+    run.rule('STRIP.fresh-result', 'no function on the way from stripped() to its result is memoised while returning a mutable container')
+    MEMO = ('lru_cache', 'cache', 'memoize', 'memoise', 'cached')
+    n_memo = 0
+    for fn_ in helpers:
+        decos = [norm(d_) for d_ in fn_.node.decorator_list]
+        memo = [d_ for d_ in decos if any(k_ in d_ for k_ in MEMO)]
+        if not memo:
+            continue
+        n_memo += 1
+        rets = [r_.value for r_ in walk_shallow(fn_.node) if isinstance(r_, ast.Return) and r_.value is not None]
+        fdefs_ = local_defs(fn_.node)
+
+        def mutable(e, depth=3):
+            if isinstance(e, (ast.List, ast.Dict, ast.Set, ast.ListComp, ast.DictComp, ast.SetComp)):
+                return True
+            if isinstance(e, ast.Call) and isinstance(e.func, ast.Name) and e.func.id in ('list', 'dict', 'set', 'deque', 'sorted', 'bytearray'):
+                return True
+            if isinstance(e, ast.Name) and depth > 0:
+                return any(isinstance(d_, ast.AST) and mutable(d_, depth - 1) for d_ in fdefs_.get(e.id, []))
+            return False
+        bad = [r_ for r_ in rets if mutable(r_)]
+        run.inst('STRIP.fresh-result', fn_, '%s is memoised (%s): its results are immutable' % (fn_.name, ', '.join(memo)), not bad,
+                 '' if not bad else ('%s is memoised (%s) and returns a mutable container (%s) that stripped() hands to its caller: every later stripped() of an equal log yields the same '
+                                     'object, so a caller that consumes or edits what it was given (pop(0), sort, del) changes what the next comparison sees - two traces that differ only in '
+                                     'timestamps stop comparing equal, and traces of different runs can compare equal' % (fn_.qualname, ', '.join(memo), norm(bad[0])[:80])),
+                 node=bad[0] if bad else None, obligation=True)
     if not uses:
         raise AnalysisError('stripped(): no regular expression found (unknown way of removing the timestamp)')
     if len({(u[1], u[2]) for u in uses}) != 1:
